@@ -295,6 +295,9 @@ func catalogue() []Edit {
 	for _, site := range typeSites {
 		for _, style := range []string{"local", "qualified", "unknown_prefix"} {
 			site, style := site, style
+			if style != "local" && !(site == "struct" || site == "args" || site == "typedef" || site == "map_key") {
+				continue
+			}
 			add("undefined_type", site+"/"+style, func(p *GProg, fi int) bool {
 				pre, _ := incPrefix(p, p.Files[fi])
 				var n string
@@ -315,7 +318,7 @@ func catalogue() []Edit {
 	}
 	for _, v := range []string{"const/local", "service/local", "const/qualified", "service/qualified"} {
 		v := v
-		for _, site := range []string{"struct", "args", "typedef", "list_elem"} {
+		for _, site := range []string{"struct", "args"} {
 			site := site
 			add("nontype_symbol_as_type", v+"/"+site, func(p *GProg, fi int) bool {
 				f := p.Files[fi]
